@@ -1,5 +1,5 @@
 """C24 — noise-model channels act on the intended atomic levels."""
-from ..rules import dispatch, noise
+from ..rules import adapter, dispatch, noise
 
 META = {
     "title": "Noise-model channels act on the intended atomic levels",
@@ -28,3 +28,4 @@ def check(ctx):
     dispatch.noise_cover(ctx)
     ctx.floor("BASIS-rate", 4)
     ctx.floor("BASIS-table", 3)
+    adapter.noise_source(ctx)
